@@ -1,4 +1,298 @@
-//! native validation of the oracles of this family against the repository's vectors
+//! native validation of the oracles of this family (Kuznyechik, Magma / GOST 28147-89, BelT) against the
+//! repository's vectors and the standards' own worked examples.
+//! None of the three crates ships .blb files: kuznyechik and belt-block carry their vectors in tests/mod.rs,
+//! magma only in the crate-level doc example.  All of them are typed in here.
 #![allow(unused)]
 use crate::T;
-pub fn run(repo: &str, t: &mut T) {}
+use refmodels::{belt, gost, kuznyechik as kz};
+
+fn hx(s: &str) -> Vec<u8> {
+    let s: String = s.chars().filter(|c| !c.is_whitespace()).collect();
+    (0..s.len() / 2).map(|i| u8::from_str_radix(&s[2 * i..2 * i + 2], 16).unwrap()).collect()
+}
+fn a16(s: &str) -> [u8; 16] {
+    hx(s).try_into().unwrap()
+}
+fn a32(s: &str) -> [u8; 32] {
+    hx(s).try_into().unwrap()
+}
+fn a8(s: &str) -> [u8; 8] {
+    hx(s).try_into().unwrap()
+}
+fn w(s: &str) -> u32 {
+    u32::from_str_radix(s, 16).unwrap()
+}
+
+fn kuznyechik(t: &mut T) {
+    // GOST R 34.12-2015 A.1.1 .. A.1.3: S, R, L examples
+    let s_chain = [
+        "ffeeddccbbaa99881122334455667700",
+        "b66cd8887d38e8d77765aeea0c9a7efc",
+        "559d8dd7bd06cbfe7e7b262523280d39",
+        "0c3322fed531e4630d80ef5c5a81c50b",
+        "23ae65633f842d29c5df529c13f5acda",
+    ];
+    let mut ok = true;
+    for i in 0..4 {
+        ok &= kz::s(&a16(s_chain[i])) == a16(s_chain[i + 1]);
+        ok &= kz::s_inv(&a16(s_chain[i + 1])) == a16(s_chain[i]);
+    }
+    t.check("kuznyechik S examples", ok);
+    let r_chain = [
+        "00000000000000000000000000000100",
+        "94000000000000000000000000000001",
+        "a5940000000000000000000000000000",
+        "64a59400000000000000000000000000",
+        "0d64a594000000000000000000000000",
+    ];
+    let mut ok = true;
+    for i in 0..4 {
+        ok &= kz::r(&a16(r_chain[i])) == a16(r_chain[i + 1]);
+        ok &= kz::r_inv(&a16(r_chain[i + 1])) == a16(r_chain[i]);
+    }
+    t.check("kuznyechik R examples", ok);
+    let l_chain = [
+        "64a59400000000000000000000000000",
+        "d456584dd0e3e84cc3166e4b7fa2890d",
+        "79d26221b87b584cd42fbc4ffea5de9a",
+        "0e93691a0cfc60408b7b68f66b513c13",
+        "e6a8094fee0aa204fd97bcb0b44b8580",
+    ];
+    let mut ok = true;
+    for i in 0..4 {
+        ok &= kz::l(&a16(l_chain[i])) == a16(l_chain[i + 1]);
+        ok &= kz::l_inv(&a16(l_chain[i + 1])) == a16(l_chain[i]);
+    }
+    t.check("kuznyechik L examples", ok);
+    // A.1.4 key schedule
+    let key = a32("8899aabbccddeeff0011223344556677fedcba98765432100123456789abcdef");
+    t.check("kuznyechik C_1, C_2", kz::c(1) == a16("6ea276726c487ab85d27bd10dd849401") && kz::c(2) == a16("dc87ece4d890f4b3ba4eb92079cbeb02"));
+    let rk = kz::key_schedule(&key);
+    let exp = [
+        "8899aabbccddeeff0011223344556677",
+        "fedcba98765432100123456789abcdef",
+        "db31485315694343228d6aef8cc78c44",
+        "3d4553d8e9cfec6815ebadc40a9ffd04",
+        "57646468c44a5e28d3e59246f429f1ac",
+        "bd079435165c6432b532e82834da581b",
+        "51e640757e8745de705727265a0098b1",
+        "5a7925017b9fdd3ed72a91a22286f984",
+        "bb44e25378c73123a5f32f73cdb6e517",
+        "72e9dd7416bcf45b755dbaa88e4a4043",
+    ];
+    t.check("kuznyechik round keys K1..K10", (0..10).all(|i| rk[i] == a16(exp[i])));
+    // A.1.5 / A.1.6 (also kuznyechik/tests/mod.rs `kuznyechik`)
+    let pt = a16("1122334455667700ffeeddccbbaa9988");
+    let ct = a16("7f679d90bebc24305a468d42b9d4edcd");
+    t.check("kuznyechik standard vector", kz::encrypt(&key, &pt) == ct && kz::decrypt(&key, &ct) == pt);
+    // kuznyechik/tests/mod.rs `kuznyechik_chain`: key [42; 32], 32 blocks with block[i][0] = i, 2^16 iterations
+    let expected = [
+        "11D15674379CD494AD88593829490D88", "CD6FADA332F2A0DA822104CC1504AC25", "42E01F93BA3A32B63BFD510422C3C63E",
+        "98CF3C6A666C615E2E30AEA728AE5F99", "48D0A38142D67888B655AAB30F6A272C", "AAC6FB321587253415ADEC32781125B6",
+        "73511E76309D5828E5B101E41A905F8B", "6411E97F18C3880877993C6D89320923", "8DFA86AAAB005B656B4DEC969C12D920",
+        "62B1EC7E54B2F2AC4CD2A4CC35A667DF", "FB28F70F8F7E57AADBFE16914BFA182E", "DA549C44F5B67C35BB36B482B0D1395B",
+        "B54A552F1EF9F42B9EA807573202F67D", "625A9CD84D0B1FFDD194ECD2967AE637", "8D289AFB65774FC553090FBBC4869990",
+        "8CDE9FCF9BDBFCC7465481F4D305EFC3", "60A8836A71692E2975935E6AD357C22F", "90CB51859D95A03D472EAD2FE8001A73",
+        "32CD8B2FBD2826646EC05400A9FD2026", "426B92425A2C36A1F78A6D548EE092A1", "7CE00E51E8BA451EE3117B3655736200",
+        "A5A8D7ADA61A55E632DC18A40E11A536", "5506E07D1CDF1E9CBB976FE5C06F65B6", "968DBF83021137C4E28FBB5E045A9806",
+        "2B5D4D11ED27B9F3AFDACEF63099FE8F", "960D76DBA4B3019AD7ABA1F2B62C195A", "D9CCB67B70E3EBEC9729234B57D389BE",
+        "42E01DCBF710D24BB95D62BCD6D980B4", "4346E56B5CDE431ABD256812AF44B862", "5B20A5A85A484758470B102D4D8B4B5A",
+        "547DBA406B244657CAC3052E4CC93616", "E350A265B6E2F43910C26F875CB8ADD6",
+    ];
+    // the oracle is slow (bitwise field arithmetic): tabulate L S / S^-1 L^-1 per byte position once, by linearity of L
+    // -- this is a device of the validation driver only, cross-checked against the plain oracle below.
+    let rk = kz::key_schedule(&[42u8; 32]);
+    let mut ls_t = vec![[[0u8; 16]; 256]; 16];
+    let mut li_t = vec![[[0u8; 16]; 256]; 16];
+    for p in 0..16 {
+        for v in 0..256 {
+            let mut e = [0u8; 16];
+            e[p] = v as u8;
+            ls_t[p][v] = kz::l(&e);
+            li_t[p][v] = kz::l_inv(&e);
+        }
+    }
+    let fast_l = |tab: &Vec<[[u8; 16]; 256]>, a: &[u8; 16]| {
+        let mut o = [0u8; 16];
+        for p in 0..16 {
+            for j in 0..16 {
+                o[j] ^= tab[p][a[p] as usize][j];
+            }
+        }
+        o
+    };
+    let mut ok = true;
+    let mut blocks = [[0u8; 16]; 32];
+    for (i, b) in blocks.iter_mut().enumerate() {
+        b[0] = i as u8;
+    }
+    // cross-check the tabulated L against the oracle on the evolving data
+    for (i, b) in blocks.iter().enumerate() {
+        let mut z = *b;
+        z[5] = 0xA7 ^ i as u8;
+        z[15] = 0x31;
+        ok &= fast_l(&ls_t, &z) == kz::l(&z) && fast_l(&li_t, &z) == kz::l_inv(&z);
+        ok &= kz::encrypt_with(&rk, &z, |a| fast_l(&ls_t, &kz::s(a))) == kz::encrypt_with(&rk, &z, kz::ls);
+    }
+    for _ in 0..(1 << 16) {
+        for b in blocks.iter_mut() {
+            *b = kz::encrypt_with(&rk, b, |a| fast_l(&ls_t, &kz::s(a)));
+        }
+    }
+    ok &= (0..32).all(|i| blocks[i] == a16(expected[i]));
+    // plain oracle on the final blocks: one decryption and re-encryption each
+    for b in blocks.iter() {
+        let d = kz::decrypt_with(&rk, b, kz::s_inv, kz::l_inv);
+        ok &= kz::encrypt_with(&rk, &d, kz::ls) == *b;
+        ok &= d == kz::decrypt_with(&rk, b, kz::s_inv, |a| fast_l(&li_t, a));
+    }
+    for _ in 0..(1 << 16) {
+        for b in blocks.iter_mut() {
+            *b = kz::decrypt_with(&rk, b, kz::s_inv, |a| fast_l(&li_t, a));
+        }
+    }
+    ok &= blocks.iter().enumerate().all(|(i, b)| b[0] == i as u8 && b[1..].iter().all(|&x| x == 0));
+    t.check("kuznyechik chain 32x65536", ok);
+}
+
+fn magma(t: &mut T) {
+    let sb = &gost::TC26;
+    // GOST R 34.12-2015 A.2.1: t
+    let tc = ["fdb97531", "2a196f34", "ebd9f03a", "b039bb3d", "68695433"];
+    t.check("magma t examples", (0..4).all(|i| gost::t(sb, w(tc[i])) == w(tc[i + 1])));
+    // A.2.2: g[k](a)
+    //   g[87654321](fedcba98) = fdcbc20c, g[fdcbc20c](87654321) = 7e791a4b, g[7e791a4b](fdcbc20c) = c76549ec, ...
+    let gc = ["fedcba98", "87654321", "fdcbc20c", "7e791a4b", "c76549ec", "9791c849"];
+    t.check("magma g examples", (0..4).all(|i| gost::g(sb, w(gc[i]), w(gc[i + 1])) == w(gc[i + 2])));
+    // A.2.3 round-key order
+    let order: Vec<usize> = (0..32).map(gost::key_index).collect();
+    let mut exp: Vec<usize> = Vec::new();
+    for _ in 0..3 {
+        exp.extend(0..8);
+    }
+    exp.extend((0..8).rev());
+    t.check("magma round-key order", order == exp);
+    // A.2.4 / A.2.5 and the doc example of magma/src/lib.rs
+    let key = a32("ffeeddccbbaa99887766554433221100f0f1f2f3f4f5f6f7f8f9fafbfcfdfeff");
+    let pt = a8("fedcba9876543210");
+    let ct = a8("4ee901e5c2d8ca3d");
+    t.check("magma standard vector", gost::encrypt(sb, &key, &pt) == ct && gost::decrypt(sb, &key, &ct) == pt);
+    // every set: decryption inverts encryption on a few inputs, and the sets differ from each other
+    let sets: [(&str, &gost::Sboxes); 8] = [
+        ("Tc26", &gost::TC26), ("Test", &gost::TEST), ("CryptoProA", &gost::CRYPTOPRO_A), ("CryptoProB", &gost::CRYPTOPRO_B),
+        ("CryptoProC", &gost::CRYPTOPRO_C), ("CryptoProD", &gost::CRYPTOPRO_D), ("UserA", &gost::USER_A), ("UserB", &gost::USER_B),
+    ];
+    let mut ok = true;
+    let mut cts = Vec::new();
+    for (_, s) in sets.iter() {
+        let c = gost::encrypt(s, &key, &pt);
+        ok &= gost::decrypt(s, &key, &c) == pt;
+        ok &= s.iter().all(|row| row.iter().all(|&v| v < 16));
+        cts.push(c);
+    }
+    for i in 0..cts.len() {
+        for j in 0..i {
+            ok &= cts[i] != cts[j];
+        }
+    }
+    // the bundled sets and USER_A are permutations
+    for (_, s) in sets[..7].iter() {
+        for row in s.iter() {
+            let mut seen = [false; 16];
+            for &v in row.iter() {
+                seen[v as usize] = true;
+            }
+            ok &= seen.iter().all(|&b| b);
+        }
+    }
+    t.check("gost89 all sets: inverse, distinct", ok);
+}
+
+const MAXW: usize = 256;
+fn belt_fix(x: &[u8]) -> ([u8; MAXW], usize) {
+    let mut b = [0u8; MAXW];
+    b[..x.len()].copy_from_slice(x);
+    (b, x.len())
+}
+
+fn belt(t: &mut T) {
+    // STB 34.101.31 Table A.1 / A.2 (belt-block/tests/mod.rs `belt_block`)
+    let k1 = a32("E9DEE72C 8F0C0FA6 2DDB49F4 6F739647 06075316 ED247A37 39CBA383 03A98BF6");
+    let k2 = a32("92BD9B1C E5D14101 5445FBC9 5E4D0EF2 682080AA 227D642F 2687F934 90405511");
+    let v = [
+        (k1, a16("B194BAC8 0A08F53B 366D008E 584A5DE4"), a16("69CCA1C9 3557C9E3 D66BC3E0 FA88FA6E")),
+        (k2, a16("0DC53006 00CAB840 B38448E5 E993F421"), a16("E12BDC1A E28257EC 703FCCF0 95EE8DF1")),
+    ];
+    t.check("belt-block A.1/A.2", v.iter().all(|(k, p, c)| belt::encrypt(k, p) == *c && belt::decrypt(k, c) == *p));
+    // the first row of H is the beginning of the standard's test data
+    t.check("belt H first row / permutation", belt::H[..16] == a16("B194BAC8 0A08F53B 366D008E 584A5DE4")[..] && {
+        let mut seen = [false; 256];
+        belt::H.iter().for_each(|&x| seen[x as usize] = true);
+        seen.iter().all(|&b| b)
+    });
+    // Tables A.6 / A.7 (belt-block/tests/mod.rs `belt_wblock`)
+    let x1 = hx("B194BAC8 0A08F53B 366D008E 584A5DE4 8504FA9D 1BB6C7AC 252E72C2 02FDCE0D 5BE3D612 17B96181 FE6786AD 716B890B");
+    let y1 = hx("49A38EE1 08D6C742 E52B774F 00A6EF98 B106CBD1 3EA4FB06 80323051 BC04DF76 E487B055 C69BCF54 1176169F 1DC9F6C8");
+    let x2 = hx("B194BAC8 0A08F53B 366D008E 584A5DE4 8504FA9D 1BB6C7AC 252E72C2 02FDCE0D 5BE3D612 17B96181 FE6786AD 716B89");
+    let y2 = hx("F08EF22D CAA06C81 FB127219 74221CA7 AB82C628 56FCF2F9 FCA006E0 19A28F16 E5821A51 F5735946 25DBAB8F 6A5C94");
+    let y3 = hx("E12BDC1A E28257EC 703FCCF0 95EE8DF1 C1AB7638 9FE678CA F7C6F860 D5BB9C4F F33C657B 637C306A DD4EA779 9EB23D31");
+    let x3 = hx("92632EE0 C21AD9E0 9A39343E 5C07DAA4 889B03F2 E6847EB1 52EC99F7 A4D9F154 B5EF68D8 E4A39E56 7153DE13 D72254EE");
+    let x4 = hx("DF3F8822 30BAAFFC 92F05660 32117231 0E3CB218 2681EF43 102E6717 5E177BD7 5E93E4E8");
+    let y4 = hx("E12BDC1A E28257EC 703FCCF0 95EE8DF1 C1AB7638 9FE678CA F7C6F860 D5BB9C4F F33C657B");
+    let mut ok = true;
+    for (k, x, y) in [(k1, &x1, &y1), (k1, &x2, &y2), (k2, &x3, &y3), (k2, &x4, &y4)] {
+        let (xb, n) = belt_fix(x);
+        let (yb, _) = belt_fix(y);
+        ok &= belt::wblock_enc(&k, &xb, n) == Some(yb);
+        ok &= belt::wblock_dec(&k, &yb, n) == Some(xb);
+    }
+    t.check("belt-wbl A.6/A.7", ok);
+    // domain
+    let (xb, _) = belt_fix(&x1);
+    t.check("belt-wbl domain", (0..32).all(|n| belt::wblock_enc(&k1, &xb, n).is_none() && belt::wblock_dec(&k1, &xb, n).is_none()));
+    // octet-list formulation == explicit block-list formulation for whole numbers of blocks; inverse on all lengths
+    let data: Vec<u8> = (0..MAXW).map(|i| (i * 37 + 11) as u8 ^ (i >> 3) as u8).collect();
+    let mut ok = true;
+    fn blocks<const N: usize>(d: &[u8]) -> [[u8; 16]; N] {
+        let mut o = [[0u8; 16]; N];
+        for i in 0..N {
+            o[i].copy_from_slice(&d[16 * i..16 * i + 16]);
+        }
+        o
+    }
+    fn flat<const N: usize>(b: &[[u8; 16]; N]) -> Vec<u8> {
+        b.iter().flatten().copied().collect()
+    }
+    macro_rules! cross {
+        ($n:expr) => {{
+            let (xb, len) = belt_fix(&data[..16 * $n]);
+            let e = belt::wblock_enc(&k1, &xb, len).unwrap();
+            let eb = belt::wblock_enc_blocks::<$n, _>(&blocks::<$n>(&data), |b| belt::encrypt(&k1, b));
+            ok &= e[..len] == flat(&eb)[..];
+            let d = belt::wblock_dec(&k1, &xb, len).unwrap();
+            let db = belt::wblock_dec_blocks::<$n, _>(&blocks::<$n>(&data), |b| belt::encrypt(&k1, b));
+            ok &= d[..len] == flat(&db)[..];
+        }};
+    }
+    cross!(2);
+    cross!(3);
+    cross!(4);
+    cross!(5);
+    cross!(7);
+    cross!(16);
+    for len in 32..=MAXW {
+        let (xb, _) = belt_fix(&data[..len]);
+        let e = belt::wblock_enc(&k2, &xb, len).unwrap();
+        ok &= e[len..].iter().all(|&b| b == 0) && e != xb;
+        ok &= belt::wblock_dec(&k2, &e, len) == Some(xb);
+        let d = belt::wblock_dec(&k2, &xb, len).unwrap();
+        ok &= belt::wblock_enc(&k2, &d, len) == Some(xb);
+    }
+    t.check("belt-wbl block-list form, inverse 32..=256", ok);
+}
+
+pub fn run(repo: &str, t: &mut T) {
+    kuznyechik(t);
+    magma(t);
+    belt(t);
+}
